@@ -368,6 +368,37 @@ fn c01_c02(ctx: &Ctx, gi: usize, ri: usize, rep: &mut Report, note: &dyn Fn(&str
     let g = &ctx.grammars[gi];
     let inputs = inputs_for(ctx, e, 0);
     let reach = skip_reach(g);
+    // `pest_optimizer = false`: the generator translates the unoptimized expression (how far that may differ
+    // from pest is C20's business); here the answer of the reference machine on that expression is accepted
+    // besides pest's
+    let graw = if e.options.contains("pest_optimizer = false") {
+        match Grammar::load_raw(e.src) {
+            Ok(x) => Some(x),
+            Err(err) => {
+                rep.model_error(format!("unoptimized grammar does not load: {}", err));
+                return;
+            }
+        }
+    } else {
+        None
+    };
+    let as_raw = |input: &str, pp: &Call, rep: &mut Report| -> bool {
+        let gr = match &graw {
+            Some(x) => x,
+            None => return false,
+        };
+        let r = m::run(gr, ri, input, "", &[], false, Atom::NonAtomic);
+        if r.diverged || r.nonprogress {
+            return false;
+        }
+        let r_ok = r.ok.is_some();
+        let r_end = r.ok.as_ref().map(|x| x.0).unwrap_or(0);
+        let same = pp.ok == r_ok && (!r_ok || (pp.end == r_end && (!trees || pp.toks == pruned(gr, &base::m_toks_of(&r)))));
+        if same {
+            rep.cell("unoptimized-translation-behaves-as-the-unoptimized-expression-not-as-pest");
+        }
+        same
+    };
     for input in &inputs {
         let case = Case {
             ctx,
@@ -400,7 +431,7 @@ fn c01_c02(ctx: &Ctx, gi: usize, ri: usize, rep: &mut Report, note: &dyn Fn(&str
                 rep.nontrivial += 1;
             }
             rep.outcome(format!("{}:{}", b.exp_ok, b.exp_end));
-            if pp.ok != b.exp_ok || (pp.ok && pp.end != b.exp_end) {
+            if (pp.ok != b.exp_ok || (pp.ok && pp.end != b.exp_end)) && !as_raw(input, pp, rep) {
                 let sig = if entry_is_inherited_skip_rule(g, ri) {
                     SKIP_ENTRY_SIG
                 } else if has_nonatomic_skip_rule(g) {
@@ -421,6 +452,9 @@ fn c01_c02(ctx: &Ctx, gi: usize, ri: usize, rep: &mut Report, note: &dyn Fn(&str
                 rep.nontrivial += 1;
             }
             rep.outcome(show_toks(g, &exp));
+            if (exp != pp.toks || pp.end != b.exp_end) && graw.is_some() && as_raw(input, pp, rep) {
+                continue;
+            }
             if exp != pp.toks {
                 let sig = if entry_is_inherited_skip_rule(g, ri) {
                     SKIP_ENTRY_SIG
@@ -816,6 +850,19 @@ fn c07(ctx: &Ctx, gi: usize, ri: usize, rep: &mut Report, note: &dyn Fn(&str)) {
     let inputs = inputs_for(ctx, e, 0);
     let reach = skip_reach(g);
     let kind = g.rules[ri].kind;
+    // `pest_optimizer = false`: the generator translates the unoptimized expression; implicit skipping is
+    // then judged against the reference machine on that expression (pest's own behaviour is accepted too)
+    let graw = if e.options.contains("pest_optimizer = false") {
+        match Grammar::load_raw(e.src) {
+            Ok(x) => Some(x),
+            Err(err) => {
+                rep.model_error(format!("unoptimized grammar does not load: {}", err));
+                return;
+            }
+        }
+    } else {
+        None
+    };
     for input in &inputs {
         let case = Case {
             ctx,
@@ -831,6 +878,55 @@ fn c07(ctx: &Ctx, gi: usize, ri: usize, rep: &mut Report, note: &dyn Fn(&str)) {
         let b = base::base(g, e, ri, input, &[], Atom::NonAtomic, rep);
         if b.ill_founded {
             rep.ill_founded += 1;
+            continue;
+        }
+        if let Some(gr) = &graw {
+            let r = m::run(gr, ri, input, "", &[], false, Atom::NonAtomic);
+            rep.states += r.stats.states;
+            rep.transitions += r.stats.transitions;
+            if r.diverged || r.nonprogress {
+                rep.ill_founded += 1;
+                continue;
+            }
+            rep.cases += 1;
+            let o = match typed(e, ri, &case.req(what::PP | what::CP)) {
+                Ok(o) => o,
+                Err(p) => {
+                    rep.violation(case.violation("typed-panic", exp_str(&b), format!("panic: {}", p), String::new()));
+                    continue;
+                }
+            };
+            rep.impl_validated += 1;
+            if r.skip_consumed > 0 || r.skip_suppressed > 0 {
+                rep.nontrivial += 1;
+            }
+            let pp = o.pp.as_ref().unwrap();
+            let cp = o.cp.as_ref().unwrap();
+            let r_ok = r.ok.is_some();
+            let r_end = r.ok.as_ref().map(|x| x.0).unwrap_or(0);
+            let r_toks = pruned(gr, &base::m_toks_of(&r));
+            rep.outcome(format!("raw:{}:{}:{}", r_ok, r_end, show_toks(gr, &r_toks)));
+            let as_raw = pp.ok == r_ok && (!r_ok || (pp.end == r_end && pp.toks == r_toks));
+            let as_pest = pp.ok == b.exp_ok && (!pp.ok || (pp.end == b.exp_end && pp.toks == pruned(g, &b.exp_toks)));
+            if !as_raw && as_pest {
+                rep.cell("unoptimized-translation-behaves-as-pest-not-as-the-unoptimized-expression");
+            }
+            if !as_raw && !as_pest {
+                rep.violation(case.violation(
+                    "skipping-differs-from-unoptimized-expression-and-from-pest",
+                    format!(
+                        "{} {} (unoptimized expression) or {}",
+                        if r_ok { format!("Ok(end={})", r_end) } else { "None".into() },
+                        show_toks(gr, &r_toks),
+                        exp_str(&b)
+                    ),
+                    format!("{} {}", call_str(&o.pp), show_toks(g, &pp.toks)),
+                    format!("options: {}", e.options),
+                ));
+            }
+            if cp.ok != pp.ok || (pp.ok && cp.end != pp.end) {
+                rep.violation(case.violation("check-differs-from-parse", call_str(&o.pp), call_str(&o.cp), format!("options: {}", e.options)));
+            }
             continue;
         }
         rep.cases += 1;
